@@ -64,6 +64,37 @@ fn oneshot_bytes(input: &[u8]) -> Result<(), (String, String)> {
     Ok(())
 }
 
+/// one large input through the one-shot APIs, the streams and the incremental byte API; returns (system, message) per failure
+fn large_case(n: usize, shift: usize) -> Vec<(String, String)> {
+    use vchecks::fault_sys::large_input;
+    let input = large_input(n, shift);
+    let mut errs: Vec<(String, String)> = vec![];
+    if let Err((sys, m)) = guard(|| oneshot_bytes(&input)).unwrap_or_else(|p| Err(("strip_bytes/streams".to_string(), p))) {
+        errs.push((sys, m));
+    }
+    // text API on the longest valid-UTF-8 part (the unit is UTF-8; a cut may sit inside é at either end)
+    let lo = usize::from(input.first() == Some(&0xa9));
+    let hi = input.len() - usize::from(input.last() == Some(&0xc3));
+    let text = String::from_utf8(input[lo..hi].to_vec()).expect("the unit is UTF-8");
+    if let Err((sys, m)) = guard(|| oneshot_str(&text)).unwrap_or_else(|p| Err(("strip_str".to_string(), p))) {
+        errs.push((sys, m));
+    }
+    for cut in [8192usize, 1000] {
+        let (mut imp, mut model) = (anstream::adapter::StripBytes::new(), StripModel::default());
+        let r = guard(|| {
+            for ch in input.chunks(cut) {
+                run_strip_bytes(&mut imp, &mut model, ch)?;
+            }
+            Ok(())
+        })
+        .and_then(|r: Result<(), String>| r);
+        if let Err(m) = r {
+            errs.push(("StripBytes::strip_next/chunk".into(), format!("cut every {cut} bytes: {m}")));
+        }
+    }
+    errs
+}
+
 fn oneshot_str(input: &str) -> Result<(), (String, String)> {
     let mut model = StripModel::default();
     let it = strip_str(input);
@@ -301,6 +332,27 @@ fn main_check(ctx: &Ctx) -> Outcome {
     });
     out.push_part(json!({"system":"every BMP character after each of 9 sequence prefixes (strip_str, strip_bytes, streams, StripStr split)","characters":n_bmp,"prefixes":prefixes.len()}));
 
+    // (5) large inputs (around the 4/8/16/64 KiB marks), the unit shifted over every offset: one-shot APIs and
+    //     streams, and the incremental APIs with the input cut at 8192 (and at 1000)
+    {
+        use vchecks::fault_sys::LARGE_UNIT;
+        let sizes: Vec<usize> = if quick { vec![8191, 8192, 8193, 20000] } else { vec![4095, 4096, 4097, 8191, 8192, 8193, 16384, 16385, 20000, 65535, 65537, 131073] };
+        let cases: Vec<(usize, usize)> = sizes.iter().flat_map(|&n| (0..LARGE_UNIT.len()).map(move |s| (n, s))).collect();
+        cases.par_iter().for_each(|&(n, shift)| {
+            evals.fetch_add(3, Ordering::Relaxed);
+            let brief = |m: String| -> String { if m.len() > 600 { format!("{} ...", m.chars().take(600).collect::<String>()) } else { m } };
+            let errs = large_case(n, shift);
+            for (sys, m) in errs {
+                let mut v = viol.lock().unwrap();
+                if v.len() < 200 {
+                    let m = brief(m);
+                    v.push(finding(&format!("{sys}/large"), &clause_of(&m), vec![format!("{n} bytes, unit shifted by {shift}")], m, json!({"kind":"large","n":n,"shift":shift})));
+                }
+            }
+        });
+        out.push_part(json!({"system":"large inputs: strip_bytes, strip_str, streams one-shot; StripBytes cut every 8192 / 1000 bytes","sizes":sizes,"unit":LARGE_UNIT,"shifts":LARGE_UNIT.len()}));
+    }
+
     let mut v = viol.into_inner().unwrap();
     v.sort_by(|a, b| (a.case.iter().map(|c| c.len()).sum::<usize>(), a.key()).cmp(&(b.case.iter().map(|c| c.len()).sum::<usize>(), b.key())));
     out.findings.extend(v);
@@ -361,6 +413,10 @@ fn replay(v: &serde_json::Value) -> Result<(), String> {
             let b = unhex(v["chunk"].as_str().unwrap());
             run_strip_str(&mut imp, &mut model, std::str::from_utf8(&b).unwrap()).map(|_| ())
         }
+        "large" => match large_case(v["n"].as_u64().unwrap_or(0) as usize, v["shift"].as_u64().unwrap_or(0) as usize).into_iter().next() {
+            Some((sys, m)) => Err(format!("{sys}: {}", m.chars().take(600).collect::<String>())),
+            None => Ok(()),
+        },
         k => Err(format!("unknown replay kind {k}")),
     }
 }
